@@ -337,6 +337,11 @@ fn gen_for(def: &CheckDef, verif_seed: u64, run_no: u64) -> Result<Scenario, Str
         return c26::gen_c26(run_seed);
     }
     if def.profiles.is_empty() {
+        // C18-C20: one run in eight is a structural scenario in which probes of the property's mode
+        // sit inside constructs replaced through block-alternate (they must not survive the construct)
+        if matches!(def.id, "C18" | "C19" | "C20") && run_no % 8 == 7 {
+            return gen::gen_scenario(def.id, &checks::region_profile(), run_seed, false);
+        }
         return execcheck::gen_exec_scenario(def.id, run_seed);
     }
     let p = &def.profiles[(run_no % def.profiles.len() as u64) as usize];
@@ -675,7 +680,7 @@ fn write_evidence(
             "hash_seeds_per_scenario": hs,
             "hash_maps_created": st.hash_maps,
             "cross_process": XP_SUMMARY.lock().unwrap().clone().unwrap_or(serde_json::Value::Null),
-            "profiles": if id == "C26" { vec!["component"] } else if def.profiles.is_empty() { vec![execcheck::exec_profile(id).name] } else { def.profiles.iter().map(|p| p.name).collect::<Vec<_>>() },
+            "profiles": if id == "C26" { vec!["component"] } else if def.profiles.is_empty() { if matches!(id, "C18" | "C19" | "C20") { vec![execcheck::exec_profile(id).name, "region-interior"] } else { vec![execcheck::exec_profile(id).name] } } else { def.profiles.iter().map(|p| p.name).collect::<Vec<_>>() },
             "components": {
                 "real": ["wirm (all of /repo/src built from the current working tree with --cfg wirm_verif)", "wasmparser 0.235 / wasm-encoder 0.235 as linked by /repo", "kernel file errors for emit_wasm"],
                 "stub": ["hash keys (seeded seam)", "log sink (capturing logger)", "panic hook (silent, recording)"]
